@@ -331,4 +331,51 @@ def sampleOf (tm : Timing) (r : RResult) : TSample :=
   { abs := tm.abs, rel := tm.rel, period := tm.period, ops := (resultOps r).1, unit := (resultOps r).2.1,
     normal := tm.normal, tput := supplied r }
 
+/-- the clock readings `AsyncExecutor.__call__` turns into a sample's time stamps.  `totalStart` is the performance counter
+    read when the executor starts working on the task — *before* the ramp-up wait, which therefore does not appear here;
+    `epoch` is the constant offset between `time.time()` and `time.perf_counter()` -/
+structure ReqClock where
+  epoch : Rat
+  totalStart : Rat
+  samplerStart : Rat
+  processingStart : Rat
+  requestStart : Rat
+  requestEnd : Rat
+
+/-- `absolute_time = absolute_processing_start`, `relative_time = request_start - task_start`,
+    `time_period = request_end - total_start` -/
+def execTiming (c : ReqClock) (normal : Bool) : Timing :=
+  { abs := c.epoch + c.processingStart, rel := c.requestStart - c.samplerStart, period := c.requestEnd - c.totalStart,
+    normal := normal }
+
+/-! ## a metrics store that fails
+
+`Driver.post_process_samples` does not catch anything: an error raised by the store while a batch is post-processed
+leaves it, the actor reports a benchmark failure and the race is aborted.  Nothing is retried. -/
+
+inductive FEvent where
+  | update (samples : List (Nat × TSample))
+  | postProcess
+  /-- a post-processing run during which the store raises: after `written = some j` throughput records of the run were
+      stored, or (`none`) in the final `flush()`, i.e. after all of them -/
+  | faultyRun (written : Option Nat)
+
+/-- throughput records written by each post-processing run of a race whose store may fail -/
+def driverRunF (buf : List (Nat × TSample)) (stats : List (Nat × TaskStats)) : List FEvent → List (List (Nat × Out))
+  | [] => []
+  | .update samples :: evs => driverRunF (buf ++ samples) stats evs
+  | .postProcess :: evs =>
+    let r := postprocess stats buf
+    r.2 :: driverRunF [] r.1 evs
+  | .faultyRun w :: _ =>
+    [match w with
+     | none => (postprocess stats buf).2
+     | some j => (postprocess stats buf).2.take j]
+
+/-- the same events with a store that never fails -/
+def healed : FEvent → DEvent
+  | .update s => .update s
+  | .postProcess => .postProcess
+  | .faultyRun _ => .postProcess
+
 end Throughput
